@@ -89,6 +89,8 @@ impl Value {
     }
 }
 
+pub const ZST_READ_CAP: usize = 64;
+
 pub fn ceil_to(x: usize, m: usize) -> usize {
     if m == 0 {
         x
@@ -551,10 +553,11 @@ impl<'a> Parser<'a> {
                     let r = self.parse(elem, off + doff + i * es, es, path);
                     path.pop();
                     vals.push(r?.0);
-                    if es == 0 && i >= 8 {
-                        // zero-sized elements: content is the count only
-                        for _ in (i + 1)..n.min(64) {
-                            vals.push(Value::Unit);
+                    if es == 0 && i + 1 >= ZST_READ_CAP {
+                        // zero-sized elements: content is the count only; long vectors are
+                        // represented by their first elements plus the count
+                        if n > ZST_READ_CAP {
+                            vals.push(Value::U(n as u128));
                         }
                         break;
                     }
@@ -1163,6 +1166,124 @@ pub fn gen_value(d: &Desc, rng: &mut Rng, budget: usize) -> Value {
             };
             let sub = (budget / n.max(1)).max(4);
             Value::Seq((0..n).map(|_| gen_value(item, rng, sub)).collect())
+        }
+    }
+}
+
+// ---------------------------------------------------------------------------
+// size of the mapped view, portable serialisation
+
+/// `size_of_val` of a value of shape `d` mapped on `n` bytes (n >= min_size).
+pub fn view_size(d: &Desc, n: usize) -> usize {
+    if d.is_sized() {
+        return d.size();
+    }
+    let a = d.align();
+    let nu = floor_to(n, a);
+    match d {
+        Desc::Vec { elem, .. } => {
+            let doff = d.vec_data_off();
+            let es = elem.size();
+            if es == 0 {
+                ceil_to(doff, a)
+            } else {
+                ceil_to(doff + ((nu - doff) / es) * es, a)
+            }
+        }
+        Desc::Str { .. } | Desc::Flex { .. } | Desc::Enum { .. } => nu,
+        Desc::Struct { fields, .. } => {
+            let (offs, _, _) = c_struct(fields);
+            let lo = *offs.last().unwrap();
+            ceil_to(lo + view_size(fields.last().unwrap(), nu - lo), a)
+        }
+        _ => unreachable!(),
+    }
+}
+
+/// Reference serialisation of a portable value: the concatenation, in
+/// declaration order, of tag, fields, length, elements (FlexVec: offset word,
+/// item, ...).  Knows nothing about alignment or padding.  `None` marks the
+/// unused bytes of a sized enum whose active variant is smaller than the
+/// largest one (their content is unspecified).
+pub fn serialize_portable(d: &Desc, v: &Value, out: &mut Vec<Option<u8>>) {
+    fn put(out: &mut Vec<Option<u8>>, size: usize, endian: Endian, x: u128) {
+        let mut b = vec![0u8; size];
+        write_uint(&mut b, endian, x);
+        out.extend(b.iter().map(|x| Some(*x)));
+    }
+    /// number of bytes of a sized portable shape = sum of its parts
+    fn psize(d: &Desc) -> usize {
+        match d {
+            Desc::Unit => 0,
+            Desc::Bool => 1,
+            Desc::Int { size, .. } | Desc::Float { size, .. } => *size,
+            Desc::Array(e, n) => psize(e) * n,
+            Desc::Struct { fields, .. } => fields.iter().map(psize).sum(),
+            Desc::Enum { tag, variants, .. } => tag + variants.iter().map(|v| v.iter().map(psize).sum::<usize>()).max().unwrap_or(0),
+            _ => panic!("harness: psize of unsized shape"),
+        }
+    }
+    match d {
+        Desc::Unit => {}
+        Desc::Bool => out.push(Some(v.u() as u8)),
+        Desc::Int { size, endian, .. } | Desc::Float { size, endian, .. } => put(out, *size, *endian, v.u()),
+        Desc::Array(e, _) => {
+            for x in v.fields() {
+                serialize_portable(e, x, out);
+            }
+        }
+        Desc::Struct { fields, .. } => {
+            for (f, x) in fields.iter().zip(v.fields()) {
+                serialize_portable(f, x, out);
+            }
+        }
+        Desc::Enum { tag, variants, sized, .. } => {
+            let (i, f) = match v {
+                Value::Var(i, f) => (*i, f),
+                _ => panic!("harness: enum value expected"),
+            };
+            let start = out.len();
+            put(out, *tag, Endian::Native, i as u128);
+            for (fd, x) in variants[i].iter().zip(f) {
+                serialize_portable(fd, x, out);
+            }
+            if *sized {
+                let total = psize(d);
+                while out.len() < start + total {
+                    out.push(None);
+                }
+            }
+        }
+        Desc::Vec { elem, len } => {
+            put(out, len.size, len.endian, v.fields().len() as u128);
+            for x in v.fields() {
+                serialize_portable(elem, x, out);
+            }
+        }
+        Desc::Str { len } => {
+            let s = match v {
+                Value::Str(s) => s.as_bytes(),
+                _ => panic!("harness: string value expected"),
+            };
+            put(out, len.size, len.endian, s.len() as u128);
+            out.extend(s.iter().map(|x| Some(*x)));
+        }
+        Desc::Flex { item, len } => {
+            let items = v.fields();
+            if items.is_empty() {
+                put(out, len.size, len.endian, 0);
+                return;
+            }
+            for (i, x) in items.iter().enumerate() {
+                let mut body = Vec::new();
+                serialize_portable(item, x, &mut body);
+                if i + 1 == items.len() {
+                    put(out, len.size, len.endian, len.max());
+                } else {
+                    put(out, len.size, len.endian, (len.size + body.len()) as u128);
+                }
+                out.extend(body);
+            }
         }
     }
 }
